@@ -3,28 +3,11 @@ Line-protocol driver: one JSON request per line on stdin, one JSON answer per li
 Runs the executable model (`JaxVerif/Model/*`) only; imports no Mathlib so that it links.
 -/
 import Lean.Data.Json
-import JaxVerif.Model.Core
-import JaxVerif.Model.Parse
+import Driver.Codec
 
 open Lean JV
 
 namespace Drv
-
-def jstr (s : String) : Json := Json.str s
-def jnat (n : Nat) : Json := Json.num (JsonNumber.fromNat n)
-def jint (n : Int) : Json := Json.num (JsonNumber.fromInt n)
-def jarr (l : List Json) : Json := Json.arr l.toArray
-
-def getStr (j : Json) (k : String) : Except String String := do (← j.getObjVal? k).getStr?
-def getNat (j : Json) (k : String) : Except String Nat := do (← j.getObjVal? k).getNat?
-def getBoolD (j : Json) (k : String) (d : Bool) : Bool :=
-  match j.getObjVal? k with
-  | .ok v => (v.getBool?.toOption).getD d
-  | .error _ => d
-def getArr (j : Json) (k : String) : Except String (List Json) := do
-  return (← (← j.getObjVal? k).getArr?).toList
-def getNatList (j : Json) (k : String) : Except String (List Nat) := do
-  (← getArr j k).mapM (·.getNat?)
 
 def pdimJson : PDim → Json
   | .anon => jarr [jstr "anon"]
@@ -42,27 +25,10 @@ def cmdParse (j : Json) : Except String Json := do
     return Json.mkObj [("r", jstr "ok"), ("dims", jarr (ds.map pdimJson)),
       ("iv", match iv with | none => Json.null | some i => jnat i)]
 
-def verdictStr : Verdict → String
-  | .T => "T" | .F => "F" | .ANN => "ANN"
-  | .EXC .exception => "EXC" | .EXC .baseException => "BASEEXC"
-
-def singleJson (σ : Single) : Json :=
-  jarr (σ.reverse.map fun (k, n) => jarr [jstr k.render, jnat n])
-def variadicJson (ν : Variadic) : Json :=
-  jarr (ν.map fun (k, (b, s)) => jarr [jstr k.render, Json.bool b, jarr (s.map jnat)])
-def memoJson (m : Memo) : Json :=
-  Json.mkObj [("single", singleJson m.single), ("variadic", variadicJson m.variadic)]
-
 def parseArgs (j : Json) : Except String Args := do
   match j.getObjVal? "args" with
   | .error _ => return []
-  | .ok a =>
-    let kvs ← a.getObj?
-    kvs.toList.mapM fun (k, v) => do
-      match v with
-      | .str "EXC" => return (k, ArgVal.raises .exception)
-      | .str "BASEEXC" => return (k, ArgVal.raises .baseException)
-      | _ => return (k, ArgVal.int (← v.getInt?))
+  | .ok a => parseArgsObj a
 
 def parseCatch (j : Json) : Catch :=
   match getStr j "catch" with
@@ -106,9 +72,25 @@ def cmdHist (j : Json) : Except String Json := do
         out := out ++ [Json.mkObj [("v", jstr (verdictStr v)), ("memo", memoJson m')]]
   return jarr out
 
+/-- run a program of calls / contexts / checks from an empty thread state -/
+def cmdProg (j : Json) : Except String Json := do
+  let sk := parseSkel j
+  let w := parseWrapSkel j
+  let progs ← (← getArr j "prog").mapM parseProg
+  let st0 : TState := { disable := getBoolD j "disable" false }
+  let (st, obs) := runProgs sk w progs st0
+  return Json.mkObj [("obs", jarr (obs.map obsJson)), ("depth", jnat st.stack.length),
+    ("flatten", Json.bool st.flatten), ("tp", Json.bool st.tp.isSome), ("disable", Json.bool st.disable)]
+
+def skippable (r : Except String Json) : Except String Json :=
+  match r with
+  | .error e => if e.startsWith "SKIP:" then .ok (Json.mkObj [("skip", jstr (e.drop 5).toString)]) else .error e
+  | ok => ok
+
 def dispatch1 (j : Json) : Except String Json := do
   let cmd ← getStr j "cmd"
   match cmd with
+  | "prog" => skippable (cmdProg j)
   | "parse" => cmdParse j
   | "hist" => cmdHist j
   | "bcast" => do
